@@ -753,10 +753,11 @@ Proof.
   unfold hlive in Hl. congruence.
 Qed.
 
-Theorem remove_global_event_ZOK k w : ZI w -> ZOK (remove_global_event beh k w) (fun _ _ => True).
+Theorem remove_global_event_ZOK k w : ZI w -> ZOK (remove_global_event beh k w) (fun b w' => b = true ->
+    sm_get k (w_gev w') = None /\ forall hk h, hlive w' hk h -> recvid_eqb (h_recv h) (RvGlobal k) || smem (fst k) (h_sent_g h) = false).
 Proof.
   intros HZ. pose proof (remove_global_event_DI beh k w (proj1 (proj1 HZ))) as HDf.
-  unfold remove_global_event in *. destruct (sm_get k (w_gev w)) as [i0|] eqn:Eg; [|apply ZOK_ok; [exact HZ|exact I]].
+  unfold remove_global_event in *. destruct (sm_get k (w_gev w)) as [i0|] eqn:Eg; [|apply ZOK_ok; [exact HZ|discriminate]].
   destruct (send_global_ZOK beh G_RMGE (mkEv 0 0 k) w HZ) as (Z1 & N1 & _).
   destruct (send_global beh RFUEL G_RMGE (mkEv 0 0 k) w) as [[] w1|f w1]; cbn [rbind res_world] in *; [|split; [exact Z1|split; [exact N1|exact I]]].
   set (P := fun h => recvid_eqb (h_recv h) (RvGlobal k) || smem (fst k) (h_sent_g h)) in *.
@@ -764,24 +765,27 @@ Proof.
   destruct (remove_handlers_ZOK beh (map h_key (filter P (handlers_in_order w1))) w1 Z1) as (Z2 & N2 & P2).
   destruct (remove_handlers beh (map h_key (filter P (handlers_in_order w1))) w1) as [[] w2|f w2]; cbn [rbind res_world] in *; [|split; [exact Z2|split; [exact N2|exact I]]].
   destruct (sm_remove k (w_gev w2)) as [[info m]|] eqn:Er; [|apply ZOK_fail; [exact Z2|cbn; tauto]]. cbn [res_world] in *.
-  apply ZOK_ok; [|exact I]. destruct Z2 as [[HD2 HS2] (HB2 & HG2 & HN2)]. destruct Z1 as [[HD1 _] _].
+  destruct Z2 as [[HD2 HS2] (HB2 & HG2 & HN2)]. destruct Z1 as [[HD1 _] _].
   assert (SG : SmInv (w_gev w2)) by (destruct HD2 as [[[_ X] _] _]; exact X).
   assert (HH1 : HInv w1) by (destruct (DI_parts _ HD1) as (_ & (X & _) & _); exact X).
-  pose proof (survivors w1 w2 P HH1 Hle P2) as Hsurv.
+  assert (HPs : forall h1 h2, hstat h2 = hstat h1 -> P h2 = P h1) by (intros h1 h2 Es; unfold P; now rewrite (f_equal h_recv Es : h_recv h2 = h_recv h1), (f_equal h_sent_g Es : h_sent_g h2 = h_sent_g h1)).
+  pose proof (survivors w1 w2 P HH1 Hle P2 HPs) as Hsurv.
+  apply ZOK_ok; [|intros _; split; [cbn [w_gev set_gev]; eapply remove_get_gone; eauto|intros hk h Hl; exact (Hsurv hk h Hl)]].
   split; [split; [exact HDf|eapply SInv_le; [|exact HS2]; now apply hs_le_hs]|]. split; [|split].
   - destruct HB2 as [B1 B2]. split; [|exact B2]. cbn [w_gev w_gby set_gev]. eapply by_remove; eauto.
   - intros i Hi. cbn [w_gev w_glists set_gev] in *. destruct (gbi_remove_mono _ _ _ _ _ Er Hi) as [_ X]. now apply HG2.
   - intros hk h Hl. change (hlive w2 hk h) in Hl. intros g t Hin. destruct (HN2 hk h Hl g t Hin) as [A B]. split; [|exact B].
     intros tag i X. destruct (A tag i X) as [A1 [A2 A3]]. split; [exact A1|]. split; [|exact A3]. cbn [w_gev set_gev].
     eapply gbi_remove_keep; [exact Er| |exact A2]. intros ->.
-    assert (Hp : P h = false) by (eapply Hsurv; [|exact Hl]; intros h1 h2 Es; unfold P; now rewrite (f_equal h_recv Es : h_recv h2 = h_recv h1), (f_equal h_sent_g Es : h_sent_g h2 = h_sent_g h1)).
+    assert (Hp : P h = false) by exact (Hsurv hk h Hl).
     unfold P in Hp. rewrite A1, orb_true_r in Hp. discriminate.
 Qed.
 
-Theorem remove_targeted_event_ZOK k w : ZI w -> ZOK (remove_targeted_event beh k w) (fun _ _ => True).
+Theorem remove_targeted_event_ZOK k w : ZI w -> ZOK (remove_targeted_event beh k w) (fun b w' => b = true ->
+    sm_get k (w_tev w') = None /\ forall hk h, hlive w' hk h -> recvid_eqb (h_recv h) (RvTargeted k) || smem (fst k) (h_sent_t h) = false).
 Proof.
   intros HZ. pose proof (remove_targeted_event_DI beh k w (proj1 (proj1 HZ))) as HDf.
-  unfold remove_targeted_event in *. destruct (sm_get k (w_tev w)) as [i0|] eqn:Eg; [|apply ZOK_ok; [exact HZ|exact I]].
+  unfold remove_targeted_event in *. destruct (sm_get k (w_tev w)) as [i0|] eqn:Eg; [|apply ZOK_ok; [exact HZ|discriminate]].
   destruct (send_global_ZOK beh G_RMTE (mkEv 0 0 k) w HZ) as (Z1 & N1 & _).
   destruct (send_global beh RFUEL G_RMTE (mkEv 0 0 k) w) as [[] w1|f w1]; cbn [rbind res_world] in *; [|split; [exact Z1|split; [exact N1|exact I]]].
   set (P := fun h => recvid_eqb (h_recv h) (RvTargeted k) || smem (fst k) (h_sent_t h)) in *.
@@ -789,14 +793,16 @@ Proof.
   destruct (remove_handlers_ZOK beh (map h_key (filter P (handlers_in_order w1))) w1 Z1) as (Z2 & N2 & P2).
   destruct (remove_handlers beh (map h_key (filter P (handlers_in_order w1))) w1) as [[] w2|f w2]; cbn [rbind res_world] in *; [|split; [exact Z2|split; [exact N2|exact I]]].
   destruct (sm_remove k (w_tev w2)) as [[info m]|] eqn:Er; [|apply ZOK_fail; [exact Z2|cbn; tauto]]. cbn [res_world] in *.
-  apply ZOK_ok; [|exact I]. destruct Z2 as [[HD2 HS2] (HB2 & HG2 & HN2)]. destruct Z1 as [[HD1 _] _].
+  destruct Z2 as [[HD2 HS2] (HB2 & HG2 & HN2)]. destruct Z1 as [[HD1 _] _].
   assert (ST : SmInv (w_tev w2)) by (destruct (DI_parts _ HD2) as ([_ (_ & X & _)] & _); exact X).
   assert (HH1 : HInv w1) by (destruct (DI_parts _ HD1) as (_ & (X & _) & _); exact X).
-  pose proof (survivors w1 w2 P HH1 Hle P2) as Hsurv.
-  match goal with |- ZI ?wf => set (w4 := wf) in * end.
+  assert (HPs : forall h1 h2, hstat h2 = hstat h1 -> P h2 = P h1) by (intros h1 h2 Es; unfold P; now rewrite (f_equal h_recv Es : h_recv h2 = h_recv h1), (f_equal h_sent_t Es : h_sent_t h2 = h_sent_t h1)).
+  pose proof (survivors w1 w2 P HH1 Hle P2 HPs) as Hsurv.
+  match goal with |- ZOK (ROk true ?wf) _ => set (w4 := wf) in * end.
   assert (E1 : w_gev w4 = w_gev w2 /\ w_gby w4 = w_gby w2 /\ w_glists w4 = w_glists w2 /\ w_hs w4 = w_hs w2 /\ w_tev w4 = m /\ w_tby w4 = aremove (e_tag info) (w_tby w2))
     by (unfold w4; destruct (e_kind info); repeat split).
   destruct E1 as (E1 & E2 & E3 & E4 & E5 & E6).
+  apply ZOK_ok; [|intros _; split; [rewrite E5; eapply remove_get_gone; eauto|intros hk h Hl; unfold hlive in Hl; rewrite E4 in Hl; exact (Hsurv hk h Hl)]].
   split; [split; [exact HDf|eapply SInv_le; [|exact HS2]; now apply hs_le_hs]|]. split; [|split].
   - destruct HB2 as [B1 B2]. split; [rewrite E1, E2; exact B1|]. rewrite E5, E6. eapply by_remove; eauto.
   - unfold GlInv. rewrite E1, E3. exact HG2.
@@ -804,7 +810,7 @@ Proof.
     + intros tag i X. destruct (A tag i X) as [A1 [A2 A3]]. split; [exact A1|]. split; [now rewrite E1|now rewrite E3].
     + intros tag i X. destruct (B tag i X) as [A1 A2]. split; [exact A1|]. unfold treg in *. rewrite E5.
       eapply gbi_remove_keep; [exact Er| |exact A2]. intros ->.
-      assert (Hp : P h = false) by (eapply Hsurv; [|exact Hl]; intros h1 h2 Es; unfold P; now rewrite (f_equal h_recv Es : h_recv h2 = h_recv h1), (f_equal h_sent_t Es : h_sent_t h2 = h_sent_t h1)).
+      assert (Hp : P h = false) by exact (Hsurv hk h Hl).
       unfold P in Hp. rewrite A1, orb_true_r in Hp. discriminate.
 Qed.
 
